@@ -198,7 +198,7 @@ func c03Judge(c c03Case, res opResult) string {
 		if c03MustCompute(c.op, c.dt) {
 			return "refused although this operand type must be computed: " + res.err.Error()
 		}
-		ev.Refused("C03")
+		ev.Refused("C03 " + c.op + " " + c.dt.String() + ": " + refusalReason(res.err))
 		return ""
 	}
 	if want == nil {
